@@ -38,7 +38,7 @@ def run_one(name, pid, patch, tier, with_tests, extra_checks=()):
         res = {'name': name, 'property': pid}
         if with_tests:
             t = subprocess.run(['/venv/bin/python', '-m', 'pytest', '-q', '-x', '-p', 'no:cacheprovider',
-                                '--timeout=900', 'clastic'], cwd=scratch, capture_output=True, text=True,
+                                '--timeout=900', 'clastic'], cwd=scratch, capture_output=True, text=True, errors='replace',
                                env=dict(os.environ, PYTHONPATH=scratch, PYTHONDONTWRITEBYTECODE='1'))
             res['tests_pass'] = t.returncode == 0
             res['tests_tail'] = t.stdout.strip().splitlines()[-1:] if t.stdout else []
@@ -46,7 +46,7 @@ def run_one(name, pid, patch, tier, with_tests, extra_checks=()):
         outs = {}
         for cid in (pid,) + tuple(extra_checks):
             t0 = time.time()
-            c = subprocess.run([os.path.join(HERE, 'check'), cid, tier], capture_output=True, text=True, env=env)
+            c = subprocess.run([os.path.join(HERE, 'check'), cid, tier], capture_output=True, text=True, errors='replace', env=env)
             lines = [l for l in c.stdout.splitlines() if l.startswith(('VIOLATION', 'INCONCLUSIVE', 'HELD', '  ['))]
             outs[cid] = {'exit': c.returncode, 'wall_s': round(time.time() - t0, 1), 'lines': lines[:6]}
             if c.returncode not in (0, 1):
